@@ -140,6 +140,18 @@ def check_c01(ctx):
         step = max(1, len(lines) // (6 if quick else 40))
         for k in range(1, len(lines), step):
             add({"main.sysl": "\n".join(lines[:k])}, what={"kind": "corpus-truncated", "file": f, "line": k})
+    # import closures: graphs with faults and import-as name conflicts, free-running (termination and crashes only)
+    from . import fam_import
+    ic = fam_import._scenarios(ctx, [("GenImportAlias4.cfg", 150 if quick else 1500, 7), ("GenImportFaults4.cfg", 100 if quick else 1000, 8)], 0)
+    for i, s in enumerate(ic):
+        s["mode"], s["procs"] = "free", [1, 2, 4, 16][i % 4]
+        s.pop("sched", None)
+    icev, _ = core.vh_sharded(ctx, "importclosure", ic, timeout=3000)
+    for e in icev:
+        if e["e"] in ("panic", "timeout"):
+            s = [x for x in ic if x["id"] == e["t"]][0]
+            core.add_violation(ctx, "C01/import-closure/%s" % e["e"], "import closure %s: %s" % (e["e"], json.dumps({k: s[k] for k in ("imports", "aliases", "fail", "maxd")})),
+                               {"family": "importclosure", "scenario": s})
     events, _ = core.vh_sharded(ctx, "compile", scn, timeout=3000, resilient=True)
     prints, nev, _ = core.validate(ctx, "CommandTrace", "CommandTrace.cfg", events, chunk=60000)
     by_t = {}
@@ -173,7 +185,7 @@ def check_c01(ctx):
            "rule": "TLC-enumerated construct table (type position x primitive x size form x wrapper x optional; name position x odd name), "
                    "the same files reached through an import, TLC-enumerated (operation x relative position) corruptions of TLC-generated "
                    "valid programs, and corpus files truncated at line boundaries; distinct = different file contents",
-           "by_kind": kinds, "outcomes": outcomes, "states": mc.distinct, "transitions": mc.generated,
+           "by_kind": kinds, "outcomes": outcomes, "import_closures_run": len(ic), "states": mc.distinct, "transitions": mc.generated,
            "traces_validated_against_impl": len(scn),
            "samples": [scn[0]["what"], scn[len(scn) // 2]["what"], scn[-1]["what"]]}
     return core.finish(ctx, "exploration", cov, [
